@@ -24,7 +24,7 @@ CONSTANTS
   Mults = {100, 200}
   MBPs = {2}
   InitMBP = 2
-  MaxBlock = 8
+  MaxBlock = 7
   MaxOps = 4
   MaxDel = 2
   OnlineOps = TRUE
